@@ -1,10 +1,81 @@
-(* Prop_C08 — convolution (statements only). *)
+(* Prop_C08 — convolve matches the convolution definition; convolve_data_adjoint / convolve_filter_adjoint
+   are its exact adjoints; inadmissible shapes are rejected (statements only).
+
+   The statements are about the model coq/model/Conv.v of sigpy.conv (tied to /repo by the exact C08
+   correspondence), with scipy.signal.convolve / correlate replaced by their recorded specifications
+   (sp_shape, sp_convolve_val, sp_correlate_val in model/Conv.v), over an ARBITRARY commutative *-ring.
+   Core: one spatial axis, arbitrary batch shape b, c_i input and c_o output channels (multi_channel=True),
+   any stride s >= 1, both modes.  D = 2, 3 and multi_channel=False are covered by the correspondence only. *)
 From Coq Require Import ZArith List Bool.
 From SV Require Import lib.Scalar lib.BigSum lib.LoopIR lib.NdArray model.Rearrange model.Block model.Linop model.Conv
-  proofs.ConvReject.
+  proofs.ConvReject proofs.Conv1D.
 Import ListNotations.
 Local Open Scope Z_scope.
 
+(* out[b, c, p] = sum_i sum_t data[b, i, s p - t + off] * filt[c, i, t]   (data zero outside [0, m)),
+   off = 0 ('full') / min(m, n) - 1 ('valid'); output length (m+n-1+s-1)//s resp. (m-n+1+s-1)//s *)
+Theorem C08_convolve_is_the_convolution_sum :
+  forall (R : StarRing) (b : list Z) (ci co m n s : Z) (full : bool),
+    Forall (fun k => 0 < k) b -> 0 < ci -> 0 < co -> 0 < m -> 0 < n -> 0 < s -> (full = false -> n <= m) ->
+    forall data filt : list Z -> R,
+    let P := if full then (m + n - 1 + s - 1) / s else (m - n + 1 + s - 1) / s in
+    let off := if full then 0 else Z.min m n - 1 in
+    exists y,
+      convolve (b ++ [ci; m]) [co; ci; n] full (Some [s]) true data filt = Ok (b ++ [co; P], y) /\
+      forall bi c p, inbox b bi -> 0 <= c < co -> 0 <= p < P ->
+        y (bi ++ [c; p]) =
+        sumZ ci (fun i => sumZ n (fun t =>
+          mul (if (0 <=? p * s + off - t) && (p * s + off - t <? m) then data (bi ++ [i; p * s + off - t]) else zero)
+              (filt [c; i; t]))).
+Proof.
+  intros R b ci co m n s full Hb Hci Hco Hm Hn Hs Hv data filt P off.
+  eexists. split.
+  - exact (convolve_1d_eval R b ci co m n s full Hm Hn Hs Hv data filt).
+  - intros bi c p Hbi Hc Hp. exact (conv_1d_value R b ci co m n s full Hb Hci Hco Hm Hn Hs Hv data filt bi c p Hbi Hc Hp).
+Qed.
+Print Assumptions C08_convolve_is_the_convolution_sum.
+
+(* <convolve(x, filt), y> = <x, convolve_data_adjoint(y, filt)> for all x, y, and the adjoint returns the data shape *)
+Theorem C08_data_adjoint_exact :
+  forall (R : StarRing) (b : list Z) (ci co m n s : Z) (full : bool),
+    Forall (fun k => 0 < k) b -> 0 < ci -> 0 < co -> 0 < m -> 0 < n -> 0 < s -> (full = false -> n <= m) ->
+    forall filt : list Z -> R,
+    let P := if full then (m + n - 1 + s - 1) / s else (m - n + 1 + s - 1) / s in
+    exists A AH : (list Z -> R) -> (list Z -> R),
+      (forall x, convolve (b ++ [ci; m]) [co; ci; n] full (Some [s]) true x filt = Ok (b ++ [co; P], A x)) /\
+      (forall y, convolve_data_adjoint (b ++ [co; P]) [co; ci; n] (b ++ [ci; m]) full (Some [s]) true y filt
+                 = Ok (b ++ [ci; m], AH y)) /\
+      forall x y, inner (b ++ [co; P]) (A x) y = inner (b ++ [ci; m]) x (AH y).
+Proof.
+  intros R b ci co m n s full Hb Hci Hco Hm Hn Hs Hv filt P.
+  eexists. eexists. split; [|split].
+  - intros x. exact (convolve_1d_eval R b ci co m n s full Hm Hn Hs Hv x filt).
+  - intros y. exact (data_adjoint_1d_eval R b ci co m n s full Hm Hn Hs Hv y filt).
+  - intros x y. exact (data_adjoint_1d R b ci co m n s full Hb Hci Hco Hm Hn Hs Hv filt x y).
+Qed.
+Print Assumptions C08_data_adjoint_exact.
+
+(* <convolve(data, f), y> = <f, convolve_filter_adjoint(y, data)> for all f, y, and the adjoint returns the filter shape *)
+Theorem C08_filter_adjoint_exact :
+  forall (R : StarRing) (b : list Z) (ci co m n s : Z) (full : bool),
+    Forall (fun k => 0 < k) b -> 0 < ci -> 0 < co -> 0 < m -> 0 < n -> 0 < s -> (full = false -> n <= m) ->
+    forall data : list Z -> R,
+    let P := if full then (m + n - 1 + s - 1) / s else (m - n + 1 + s - 1) / s in
+    exists A AH : (list Z -> R) -> (list Z -> R),
+      (forall f, convolve (b ++ [ci; m]) [co; ci; n] full (Some [s]) true data f = Ok (b ++ [co; P], A f)) /\
+      (forall y, convolve_filter_adjoint (b ++ [co; P]) (b ++ [ci; m]) [co; ci; n] full (Some [s]) true y data
+                 = Ok ([co; ci; n], AH y)) /\
+      forall f y, inner (b ++ [co; P]) (A f) y = inner [co; ci; n] f (AH y).
+Proof.
+  intros R b ci co m n s full Hb Hci Hco Hm Hn Hs Hv data P.
+  eexists. eexists. split; [|split].
+  - intros f. exact (convolve_1d_eval R b ci co m n s full Hm Hn Hs Hv data f).
+  - intros y. exact (filter_adjoint_1d_eval R b ci co m n s full Hm Hn Hs Hv y data).
+  - intros f y. exact (filter_adjoint_1d R b ci co m n s full Hb Hci Hco Hm Hn Hs Hv data f y).
+Qed.
+Print Assumptions C08_filter_adjoint_exact.
+
+(* ---- rejection (any number of dimensions) ---- *)
 Theorem C08_reject_bad_stride_length :
   forall (R : Ops) dsh fsh full s mc, length s <> cv_D fsh mc ->
     (forall d f : list Z -> R, convolve dsh fsh full (Some s) mc d f = Err E_conv) /\
@@ -12,3 +83,43 @@ Theorem C08_reject_bad_stride_length :
     (forall osh (y d : list Z -> R), convolve_filter_adjoint osh dsh fsh full (Some s) mc y d = Err E_conv).
 Proof. intros R dsh fsh full s mc H. apply params_err_all, params_bad_strides, H. Qed.
 Print Assumptions C08_reject_bad_stride_length.
+
+Theorem C08_reject_channel_mismatch :
+  forall (R : Ops) dsh fsh full st,
+    pyget fsh (- Z.of_nat (cv_D fsh true) - 1) <> pyget dsh (- Z.of_nat (cv_D fsh true) - 1) ->
+    (forall d f : list Z -> R, convolve dsh fsh full st true d f = Err E_conv) /\
+    (forall osh (y f : list Z -> R), convolve_data_adjoint osh fsh dsh full st true y f = Err E_conv) /\
+    (forall osh (y d : list Z -> R), convolve_filter_adjoint osh dsh fsh full st true y d = Err E_conv).
+Proof. intros R dsh fsh full st H. apply params_err_all, params_channel_mismatch, H. Qed.
+Print Assumptions C08_reject_channel_mismatch.
+
+(* valid mode with m_d >= n_d on one axis and m_d < n_d on another *)
+Theorem C08_reject_mixed_valid_axes :
+  forall (R : Ops) dsh fsh st mc,
+    existsb (fun p => snd p <=? fst p) (combine (lastn (cv_D fsh mc) dsh) (lastn (cv_D fsh mc) fsh)) = true ->
+    existsb (fun p => fst p <? snd p) (combine (lastn (cv_D fsh mc) dsh) (lastn (cv_D fsh mc) fsh)) = true ->
+    (forall d f : list Z -> R, convolve dsh fsh false st mc d f = Err E_conv) /\
+    (forall osh (y f : list Z -> R), convolve_data_adjoint osh fsh dsh false st mc y f = Err E_conv) /\
+    (forall osh (y d : list Z -> R), convolve_filter_adjoint osh dsh fsh false st mc y d = Err E_conv).
+Proof. intros R dsh fsh st mc H1 H2. apply params_err_all. exact (params_mixed dsh fsh st mc H1 H2). Qed.
+Print Assumptions C08_reject_mixed_valid_axes.
+
+(* valid mode with a filter longer than the data: the output length (m - n + 1 + s - 1) // s is non-positive, rejected *)
+Theorem C08_reject_valid_longer_filter :
+  forall (R : Ops) b ci co m n s, 0 < s -> m < n ->
+    (forall d f : list Z -> R, convolve (b ++ [ci; m]) [co; ci; n] false (Some [s]) true d f = Err E_nonpos) /\
+    (forall osh (y f : list Z -> R), convolve_data_adjoint osh [co; ci; n] (b ++ [ci; m]) false (Some [s]) true y f = Err E_nonpos) /\
+    (forall osh (y d : list Z -> R), convolve_filter_adjoint osh (b ++ [ci; m]) [co; ci; n] false (Some [s]) true y d = Err E_nonpos).
+Proof. exact valid_longer_filter_1d. Qed.
+Print Assumptions C08_reject_valid_longer_filter.
+
+(* the hypotheses of the three core theorems are satisfiable, and the model computes (Gaussian integers):
+   data [1, 2, 3+i], filter [1, i], stride 2, full: conv = [1, 2+i, 3+3i, -1+3i], out = [1, 3+3i] *)
+Example C08_hypotheses_satisfiable :
+  match convolve (R:=GOps) [1; 3] [1; 1; 2] true (Some [2]) true
+          (fun idx => nth (Z.to_nat (nth 1 idx 0)) [(1, 0); (2, 0); (3, 1)] (0, 0))
+          (fun idx => nth (Z.to_nat (nth 2 idx 0)) [(1, 0); (0, 1)] (0, 0)) with
+  | Ok (sh, y) => (sh, map y [[0; 0]; [0; 1]])
+  | Err _ => ([], [])
+  end = ([1; 2], [(1, 0); (3, 3)]).
+Proof. vm_compute. reflexivity. Qed.
